@@ -601,4 +601,76 @@ theorem can_complete {P : Params} (ok : P.Ok) : ∀ (n : Nat) (s : St), Reach P 
     · have := (reach_invS ok h).order
       exact ⟨s, Steps.refl s, by omega, rfl, hd⟩
 
+
+/-! ## The deterministic output round (`Flow.round`) only takes steps the relational model allows -/
+
+/-- the scan abandons iff some segment of sendBuf has used up its budget -/
+theorem scan_dead_iff (limit er el : Nat) (ex : Nat → Bool) (l : List SSeg) :
+    (scan limit er el ex l).2.2 = true ↔ ∃ g ∈ l, limit ≤ g.r.txCount := by
+  induction l with
+  | nil => simp [scan]
+  | cons g rest ih =>
+    unfold scan
+    split
+    · rename_i h; simp; exact Or.inl h
+    · rename_i h
+      simp only [List.mem_cons, exists_eq_or_imp]
+      rw [← ih]
+      constructor
+      · intro hd; exact Or.inr hd
+      · intro hd; rcases hd with hd | hd
+        · exact absurd hd h
+        · exact hd
+
+/-- while no segment has used up its budget the scan is `Retx.step (.scan timedOut)` on every segment:
+    sequence numbers and order untouched, `txCount` raised by at most one and never above the limit -/
+theorem scan_alive (limit er el : Nat) (ex : Nat → Bool) (l : List SSeg) (h : ∀ g ∈ l, g.r.txCount < limit) :
+    (scan limit er el ex l).1 = l.map (fun g => ⟨g.seq, Retx.step er el g.r (.scan (ex g.seq))⟩) ∧
+    (scan limit er el ex l).2.2 = false := by
+  induction l with
+  | nil => simp [scan]
+  | cons g rest ih =>
+    have hg := h g (by simp)
+    have := ih (fun x hx => h x (by simp [hx]))
+    unfold scan
+    have hn : ¬ limit ≤ g.r.txCount := by omega
+    simp only [hn, if_false, List.map_cons]
+    exact ⟨by rw [this.1], this.2⟩
+
+theorem retx_scan_txcount (er el : Nat) (r : Retx.Seg) (t : Bool) :
+    r.txCount ≤ (Retx.step er el r (.scan t)).txCount ∧ (Retx.step er el r (.scan t)).txCount ≤ r.txCount + 1 := by
+  simp only [Retx.step]
+  split
+  · simp
+  · split <;> simp
+
+/-- the send loop: nothing is lost or reordered, sendBuf stays below the capacity, and a first
+    transmission happens only under the guards of `Flow.Step.sendNew` -/
+theorem sendLoop_spec (cap cwnd rwnd : Nat) : ∀ (fuel : Nat) (buf : List SSeg) (q : List Nat) (total : Nat),
+    buf.length < cap →
+    let r := sendLoop cap cwnd rwnd fuel buf q total
+    r.1.map (·.seq) ++ r.2.1 = buf.map (·.seq) ++ q ∧ r.1.length < cap ∧ total ≤ r.2.2 ∧
+    r.1.length = buf.length + (r.2.2 - total) ∧
+    (total < r.2.2 → 0 < rwnd ∧ buf.length < cwnd ∧ buf.length + 1 < cap) := by
+  intro fuel
+  induction fuel with
+  | zero => intro buf q total hb; simp [sendLoop, hb]
+  | succ n ih =>
+    intro buf q total hb
+    cases q with
+    | nil => simp [sendLoop, hb]
+    | cons k q' =>
+      simp only [sendLoop]
+      split
+      · rename_i hg
+        have hw : total < sendWindow cwnd buf.length rwnd := hg.2
+        have hw' : 0 < rwnd ∧ buf.length < cwnd := by unfold sendWindow at hw; omega
+        have := ih (buf ++ [⟨k, { txCount := 1 }⟩]) q' (total + 1) (by simp; omega)
+        simp only at this
+        obtain ⟨a, b, c, d, _⟩ := this
+        refine ⟨?_, b, by omega, ?_, fun _ => ⟨hw'.1, hw'.2, hg.1⟩⟩
+        · rw [a]; simp
+        · rw [d]; simp; omega
+      · simp [hb]
+
 end Mieru.Flow
